@@ -82,8 +82,8 @@ impl Scenario for ScanEdit {
     }
     fn runs(&self, tier: Tier) -> u64 {
         match tier {
-            Tier::Quick => 2_500,
-            Tier::Thorough => 80_000,
+            Tier::Quick => 5_000,
+            Tier::Thorough => 400_000,
         }
     }
     fn shrink_paths(&self) -> Vec<&'static str> {
@@ -102,8 +102,18 @@ impl Scenario for ScanEdit {
         let names = names_pool(o.n_names);
         let cands: Vec<String> = spec.files.iter().filter(|f| f.rel.ends_with("conftest.py") || f.rel.rsplit('/').next().map(|n| n.starts_with("test_") || n.ends_with("_test.py")).unwrap_or(false)).map(|f| f.rel.clone()).collect();
         let file = if cands.is_empty() { "test_new.py".to_string() } else { rng.pick(&cands).clone() };
-        let go = GenOpts { in_class: false, ..GenOpts::default() };
-        let buffer = render(&gen_items(&mut rng, &names, !file.ends_with("conftest.py"), &go)).text;
+        // the raced document carries more fixtures than the others: longer cleanup and recording phases
+        let go = GenOpts { in_class: false, max_fixtures: 6, dup_names: false, ..GenOpts::default() };
+        let mut spec = spec;
+        if let Some(pf) = spec.files.iter_mut().find(|f| f.rel == file) {
+            if rng.chance(600) {
+                let keep: Vec<super::pytext::Item> = pf.items.iter().filter(|i| matches!(i, super::pytext::Item::Star { .. } | super::pytext::Item::Import { .. } | super::pytext::Item::Plugins { .. })).cloned().collect();
+                let mut items = keep;
+                items.extend(gen_items(&mut rng, &names_pool(6), !file.ends_with("conftest.py"), &go));
+                pf.items = items;
+            }
+        }
+        let buffer = render(&gen_items(&mut rng, &names_pool(6), !file.ends_with("conftest.py"), &go)).text;
         let second = render(&gen_items(&mut rng, &names, !file.ends_with("conftest.py"), &go)).text;
         let mut sim = SimParams::gen(&mut rng, 4000);
         sim.max_steps = 20_000_000;
@@ -113,8 +123,10 @@ impl Scenario for ScanEdit {
             2 => rng.below(2500) as u64,
             _ => rng.below(12000) as u64,
         };
-        let kind = if rng.chance(500) { "open" } else { "change" };
-        let aim = if rng.chance(450) { Some(rng.below(700) as i64 - 350) } else { None };
+        let kind = if rng.chance(450) { "open" } else { "change" };
+        // aimed notifications: a little before the worker picks up F (the message still has to be read
+        // and dispatched) up to a little after
+        let aim = if rng.chance(550) { Some(if rng.chance(700) { rng.below(260) as i64 - 200 } else { rng.below(900) as i64 - 450 }) } else { None };
         if aim.is_some() {
             // aimed runs want fine-grained interleaving of the worker and the handler
             let keep = sim.max_steps;
